@@ -139,7 +139,11 @@ class Scenario:
                 out.append("%s(ev/close (%s :in))" % (ind, st[1]))
                 out.append("%s(verif/log :settle (verif/settle 1))" % ind)
             elif k == "spawn":
-                out.append('%s(def %s (ev/spawn\n%s))' % (ind, st[1], "\n".join(self.emit_stmts(st[2], st[1], ind + "  "))))
+                if len(st) > 3:
+                    # supervised task: the loop pushes [:ok fiber nil] on channel st[3] when it ends
+                    out.append('%s(def %s (ev/go (fn []\n%s) nil %s))' % (ind, st[1], "\n".join(self.emit_stmts(st[2], st[1], ind + "  ")), st[3]))
+                else:
+                    out.append('%s(def %s (ev/spawn\n%s))' % (ind, st[1], "\n".join(self.emit_stmts(st[2], st[1], ind + "  "))))
                 out.append('%s(verif/name %s "%s")' % (ind, st[1], st[1]))
             elif k == "dump":
                 out.append("%s(verif/dump :%s)" % (ind, st[1]))
@@ -219,10 +223,10 @@ class Scenario:
                 return ["twait", st[1]]
             raise ValueError(st)
 
-        def enc(stmts, name):
+        def enc(stmts, name, sup=None):
             toks = []
             enc_into(stmts, name, toks)
-            fibers.append((name, toks))
+            fibers.append((name, toks, sup))
 
         def enc_into(stmts, name, toks):
             for st in stmts:
@@ -244,7 +248,7 @@ class Scenario:
                     toks.extend(sub)
                     toks.append("leave")
                 elif k == "spawn":
-                    enc(st[2], st[1])
+                    enc(st[2], st[1], st[3] if len(st) > 3 else None)
                     toks.append("spawn %s" % st[1])
                 elif k == "dump":
                     toks.append("dump %s" % st[1])
@@ -271,8 +275,8 @@ class Scenario:
             lines.append("thr %s %s" % (t, kind))
         for kl in klines:
             lines.append("k" + kl[1:])
-        for name, toks in fibers:
-            lines.append("fiber %s %d" % (name, len(toks)))
+        for name, toks, sup in fibers:
+            lines.append("fiber %s %d%s" % (name, len(toks), " " + sup if sup else ""))
             for t in toks:
                 lines.append("s " + t)
         lines.append("run")
@@ -853,6 +857,32 @@ def deadline_scenarios():
               ("sleep", 5), ("cancel", "F", "stop"), ("sleep", 40), ("dump", "final")]
     s.expect = {"resumes": {"F": [(0, "nil"), (5, '"stop"'), (10, "nil"), (30, '"deadline_expired"'), (30, "nil")]}}
     out.append(s)
+    # S1-S3: supervisor channel (ev/go f v chan): the event the loop pushes when the supervised task ends is an item on a channel
+    for sid, ab in (("s1-supervisor-event-abandoned-take", "cancel"), ("s2-supervisor-event-select-elsewhere", "other"),
+                    ("s3-supervisor-event-live-reader", "live")):
+        s = Scenario(sid)
+        s.chan("cS", 0); s.chan("cB", 0); s.chan("cX", 1)
+        A = ("select", [("take", "cS"), ("take", "cX")]) if ab == "other" else ("take", "cS")
+        F = [A, ("take", "cB"), ("sleep", 0)] if ab != "live" else [A, ("sleep", 0)]
+        M = [("spawn", "F", F), ("sleep", 3)]
+        if ab == "cancel":
+            M.append(("cancel", "F", "stop"))
+        elif ab == "other":
+            M.append(("give", "cX", "vx"))
+        M += [("spawn", "G", [("sleep", 7)], "cS"), ("sleep", 17), ("dump", "after-end"), ("count", "cS")]
+        if ab != "live":
+            M += [("take", "cS"), ("give", "cB", "vb"), ("sleep", 10), ("dump", "final")]
+            first = '"stop"' if ab == "cancel" else "(:take,cX,:vx)"
+            s.expect = {"resumes": {"F": [(0, "nil"), (3, first), (20, ":vb"), (20, "nil")], "G": [(3, "nil"), (10, "nil")]},
+                        "m_final": [("m%d" % (len(M) - 5), "1"), ("m%d" % (len(M) - 4), "(:ok,G,nil)")],
+                        "sig": "supervisor-event-consumed-by-absent-waiter",
+                        "what": "a supervised task ended while the only reader registered on its supervisor channel had left (%s)" % ab}
+        else:
+            M += [("sleep", 10), ("dump", "final")]
+            s.expect = {"resumes": {"F": [(0, "nil"), (10, "(:ok,G,nil)"), (10, "nil")], "G": [(3, "nil"), (10, "nil")]},
+                        "m_final": [("m%d" % (len(M) - 3), "0")]}
+        s.main = M
+        out.append(s)
     # D5: two fibers with deadlines on the same channel; the earlier deadline cancels only its own fiber
     s = Scenario("d5-two-deadlines")
     s.chan("c")
